@@ -130,6 +130,55 @@ void symx_native_terminate(void) {
 }
 }
 
+/* ---- guard-page allocator (SYMX_EFENCE=1, replay mode): every block ends at a PROT_NONE page, so that an
+ * overrun by C++ code *or by inline/hand-written assembly* (invisible to ASan) faults at the first byte ---- */
+#include <sys/mman.h>
+extern "C" {
+void *__libc_malloc(size_t);
+void __libc_free(void *);
+void *__libc_calloc(size_t, size_t);
+void *__libc_realloc(void *, size_t);
+}
+static int g_efence = -1;
+struct EfEntry { char *user; char *base; size_t len; size_t n; };
+static EfEntry g_ef[1 << 16];
+static int g_efn = 0;
+static int ef_on() {
+    if (g_efence < 0) g_efence = getenv("SYMX_EFENCE") ? 1 : 0;
+    return g_efence;
+}
+static void *ef_alloc(size_t n) {
+    size_t n4 = (n + 3) & ~(size_t) 3;
+    if (n4 == 0) n4 = 4;
+    size_t data = (n4 + 4095) & ~(size_t) 4095;
+    size_t len = data + 4096;
+    char *base = (char *) mmap(0, len, PROT_READ | PROT_WRITE, MAP_PRIVATE | MAP_ANONYMOUS, -1, 0);
+    if (base == (char *) MAP_FAILED) return 0;
+    mprotect(base + data, 4096, PROT_NONE);
+    char *user = base + data - n4;
+    if (g_efn < (1 << 16)) { g_ef[g_efn].user = user; g_ef[g_efn].base = base; g_ef[g_efn].len = len; g_ef[g_efn].n = n; g_efn++; }
+    return user;
+}
+static EfEntry *ef_find(void *p) {
+    for (int i = g_efn - 1; i >= 0; i--) if (g_ef[i].user == (char *) p) return &g_ef[i];
+    return 0;
+}
+extern "C" void *malloc(size_t n) { return ef_on() ? ef_alloc(n) : __libc_malloc(n); }
+extern "C" void *calloc(size_t a, size_t b) { return ef_on() ? ef_alloc(a * b) : __libc_calloc(a, b); }
+extern "C" void free(void *p) {
+    if (!p) return;
+    EfEntry *e = ef_find(p);
+    if (e) { mprotect(e->base, e->len, PROT_NONE); e->user = 0; return; }   /* use-after-free faults too */
+    if (!ef_on()) __libc_free(p);
+}
+extern "C" void *realloc(void *p, size_t n) {
+    EfEntry *e = p ? ef_find(p) : 0;
+    if (!e && !ef_on()) return __libc_realloc(p, n);
+    void *q = ef_alloc(n);
+    if (p && e) { memcpy(q, p, e->n < n ? e->n : n); free(p); }
+    return q;
+}
+
 /* the library's die_dramatically()/assert() end in abort(): a terminated path */
 extern "C" void abort(void) {
     symx_terminated = 1;
